@@ -62,7 +62,11 @@ def generate(rng, tier, index):
                         "create_cache": rng.choice([True, False, None, None]),
                         "rpc": rng.choice(rpcs),
                         "spelling": rng.choice(spellings + ["plain", "plain"]),
-                        "no_options_arg": rng.random() < 0.3})
+                        "no_options_arg": rng.random() < 0.3,
+                        # sometimes the storage answers one read of one image with EIO: the call
+                        # may fail; whatever it leaves behind must not influence later steps
+                        "eio": ({"image": rng.randrange(len(wp["images"])),
+                                 "nth": rng.choice([0, 1, 2, 3])} if rng.random() < 0.08 else None)})
         elif k == "cli":
             ops.append({"op": "cli", "image": rng.randrange(len(wp["images"])),
                         "rpc": rng.choice([None, 1, 2, n, 4096])})
@@ -99,6 +103,10 @@ def generate(rng, tier, index):
                                                                    "image": img}, o()],
                 [o(create_cache=True), {"op": "cli", "image": img, "rpc": None}, o(),
                  {"op": "rm-user", "image": None}, o(), {"op": "rm-adjacent", "image": None}, o()],
+                [{"op": "cli", "image": img, "rpc": None}, o(create_cache=True),
+                 {"op": "rm-adjacent", "image": None}, o(create_cache=True), o()],
+                [{"op": "cli", "image": img, "rpc": None}, o(create_cache=True),
+                 o(use_cache=False, create_cache=True), o()],
             ]
         ops = rng.choice(motifs) + ops[:6]
     return {"world": wp, "ops": ops}
@@ -155,6 +163,8 @@ def execute(plan):
             before_state = state()
             del SIM.outside_writes[:]
             user_before = w.user_cache()
+            meta_before = w.listing_meta() if kind in ("open", "late-load", "forget", "scribble") \
+                else None
             site = kind
             evaluations += 1
             if kind == "open":
@@ -163,15 +173,23 @@ def execute(plan):
                 opts = w.options(use_cache=op["use_cache"], create_cache=op["create_cache"],
                                  records_per_chunk=op["rpc"])
                 snapshot = copy.deepcopy(opts)
+                eio = op.get("eio") if w.backend in world.RECORDED else None
+                if eio:
+                    SIM.read_fault = {"file": prod.images[eio["image"]], "nth": eio["nth"]}
                 try:
                     if op["no_options_arg"] and not opts:
                         tree = world.code().open_alos2(url)
                     else:
                         tree = world.code().open_alos2(url, backend_options=opts)
                 except Exception as e:  # noqa: BLE001
-                    bad("step-raised", f"{site}:{type(e).__name__}", step=step, op=op,
-                        error=exc_text(e), state=before_state)
+                    if eio and SIM.read_fault and SIM.read_fault.get("fired"):
+                        stats["opens-failed-under-eio"] = stats.get("opens-failed-under-eio", 0) + 1
+                    else:
+                        bad("step-raised", f"{site}:{type(e).__name__}", step=step, op=op,
+                            error=exc_text(e), state=before_state)
                     tree = None
+                finally:
+                    SIM.read_fault = None
                 if opts != snapshot:
                     bad("options-mutated", site, step=step, before=snapshot, after=opts)
                 if tree is not None:
@@ -283,6 +301,13 @@ def execute(plan):
                 bad("product-directory-modified", site, step=step, op=op, added=added,
                     removed=removed, changed=changed)
                 pristine = {k: v for k, v in now.items() if k not in expected_adjacent}
+            if meta_before is not None and not violations:
+                meta_after = w.listing_meta()
+                if meta_after != meta_before:
+                    touched = sorted(k for k in set(meta_before) | set(meta_after)
+                                     if meta_before.get(k) != meta_after.get(k))
+                    bad("product-directory-modified", site + ":rewritten", step=step, op=op,
+                        touched=touched)
             if SIM.outside_writes:
                 bad("wrote-outside-cache-dir", site, step=step, op=op,
                     operations=[list(x) for x in SIM.outside_writes[:6]])
